@@ -185,7 +185,9 @@ class Env:
                 name = "%s@%s" % (name, e["down"])
             else:
                 name = "%s%s" % (name, json.dumps(e, sort_keys=True))
-        ty = None
+        ty = b.upvar_ty.get(json.dumps(p, sort_keys=True))
+        if ty is None and isinstance(pr[-1], dict) and "f" in pr[-1] and pr[-1].get("loc"):
+            ty = b.facts.field_ty(pr[-1]["adt"], pr[-1]["n"])
         return Term(name, 0, reads, ty)
 
     def term_range(self, t, depth=4):
